@@ -47,17 +47,20 @@ func ix(a sdk.AccAddress) int {
 
 // ---------------------------------------------------------------- operations
 type op struct {
-	Kind string   `json:"kind"`
-	Via  int      `json:"via"` // -1 proposal, otherwise proposer address index
-	A    int      `json:"a"`   // address index (editors, claim, gate actor, rotate source)
-	B    int      `json:"b"`   // rotate target
-	R    int      `json:"r"`   // role id
-	P    uint32   `json:"p"`   // permission
-	Sid  int      `json:"sid"` // role sid number ("s<sid>")
-	W    []uint32 `json:"w,omitempty"`
-	Bl   []uint32 `json:"bl,omitempty"`
-	OK   bool     `json:"ok"`
-	Err  string   `json:"err,omitempty"`
+	Kind  string   `json:"kind"`
+	Via   int      `json:"via"` // -1 proposal, otherwise proposer address index
+	A     int      `json:"a"`   // address index (editors, claim, gate actor, rotate source)
+	B     int      `json:"b"`   // rotate target
+	R     int      `json:"r"`   // role id
+	P     uint32   `json:"p"`   // permission
+	Sid   int      `json:"sid"` // role sid number ("s<sid>")
+	W     []uint32 `json:"w,omitempty"`
+	Bl    []uint32 `json:"bl,omitempty"`
+	Rid   string   `json:"rid,omitempty"`     // role identifier as spelled in the message (default: the number)
+	H     string   `json:"handler,omitempty"` // probe: module.Method[/content type]
+	Exact bool     `json:"exact,omitempty"`
+	OK    bool     `json:"ok"`
+	Err   string   `json:"err,omitempty"`
 }
 
 func zl(xs []uint32) string {
@@ -111,8 +114,10 @@ func (o op) coq() string {
 		return fmt.Sprintf("OGate GDapp %d", o.A)
 	case "export_import":
 		return "OExportImport"
-	case "rotate":
+	case "rotate", "rotate_rr":
 		return fmt.Sprintf("ORotate %d %d", o.A, o.B)
+	case "probe":
+		return fmt.Sprintf("OGate (GOther %d %s) %d", o.P, hx.B(o.Exact), o.A)
 	}
 	panic("unknown op kind " + o.Kind)
 }
@@ -125,6 +130,7 @@ type env struct {
 	rms     recoverytypes.MsgServer
 	key     storetypes.StoreKey
 	voteID  uint64
+	probes  map[string]probe
 	counter int
 }
 
@@ -167,6 +173,9 @@ func (e *env) apply(ctx sdk.Context, o *op) {
 		proposer = addrs[o.Via]
 	}
 	rid := strconv.Itoa(o.R)
+	if o.Rid != "" {
+		rid = o.Rid
+	}
 	zero := sdk.ZeroDec()
 	p := hx.Try(func() {
 		switch o.Kind {
@@ -269,6 +278,11 @@ func (e *env) apply(ctx sdk.Context, o *op) {
 		case "rotate":
 			_, err = e.rms.RotateRecoveryAddress(w, &recoverytypes.MsgRotateRecoveryAddress{FeePayer: feePayer.String(), Address: addrs[o.A].String(),
 				Recovery: addrs[o.B].String(), Proof: proofs[o.A]})
+		case "rotate_rr":
+			_, err = e.rms.RotateValidatorByHalfRRTokenHolder(w, &recoverytypes.MsgRotateValidatorByHalfRRTokenHolder{RrHolder: feePayer.String(),
+				Address: addrs[o.A].String(), Recovery: addrs[o.B].String()})
+		case "probe":
+			err = e.probes[o.H].Run(cc, addrs[o.A], addrs[o.B])
 		default:
 			panic("unknown op kind " + o.Kind)
 		}
@@ -282,7 +296,7 @@ func (e *env) apply(ctx sdk.Context, o *op) {
 		if len(o.Err) > 120 {
 			o.Err = o.Err[:120]
 		}
-	} else {
+	} else if o.Kind != "probe" { // a probe never keeps its writes
 		write()
 	}
 }
@@ -585,7 +599,11 @@ func (g *gen) randomOp() op {
 	case x < 96:
 		return op{Kind: "export_import", Via: -2}
 	default:
-		return op{Kind: "rotate", A: r.Intn(4), B: 4 + r.Intn(2), Via: -2}
+		o := op{Kind: "rotate", A: r.Intn(4), B: 4 + r.Intn(2), Via: -2}
+		if o.A == 3 && r.Chance(85) {
+			o.Kind = "rotate_rr"
+		}
+		return o
 	}
 }
 
@@ -631,6 +649,22 @@ func main() {
 		}
 	}
 
+	// address 3 rotates through the other x/recovery message: it owns a validator recovery token whose
+	// whole supply the fee payer holds
+	app.RecoveryKeeper.SetRecoveryToken(base, recoverytypes.RecoveryToken{Address: addrs[3].String(), Token: "rrc07", RrSupply: sdk.NewInt(1000)})
+	rr := sdk.NewCoins(sdk.NewInt64Coin("rrc07", 1000))
+	if err := app.BankKeeper.MintCoins(base, minttypes.ModuleName, rr); err != nil {
+		panic(err)
+	}
+	if err := app.BankKeeper.SendCoinsFromModuleToAccount(base, minttypes.ModuleName, feePayer, rr); err != nil {
+		panic(err)
+	}
+	probes := e.buildProbes(app, base)
+	e.probes = map[string]probe{}
+	for _, pr := range probes {
+		e.probes[pr.Name] = pr
+	}
+
 	dist := hx.Counter{}
 	var lines []string
 	var js []interface{}
@@ -656,7 +690,11 @@ func main() {
 			prev = cur
 			ss = append(ss, fmt.Sprintf("(%s, %s, %s)", o.coq(), hx.B(o.OK), ob))
 			ops = append(ops, o)
-			dist.Inc(o.Kind + ":" + map[bool]string{true: "accepted", false: "rejected"}[o.OK])
+			dk := o.Kind
+			if o.Kind == "probe" {
+				dk = "probe " + strings.SplitN(o.H, "/", 2)[0]
+			}
+			dist.Inc(dk + ":" + map[bool]string{true: "accepted", false: "rejected"}[o.OK])
 			steps++
 		}
 		lines = append(lines, fmt.Sprintf("CHist %s %s", init, hx.List(ss)))
@@ -760,6 +798,18 @@ func main() {
 	for _, l := range scripted {
 		runHistory("scripted", fromList(l))
 	}
+	// ---- every gated handler of every module, every Content type (submission and vote)
+	all := allPerms()
+	for _, pr := range probes {
+		runHistory("probe:"+pr.Name, fromList(probeHistory(pr, all)))
+	}
+	// ---- rotation through RotateValidatorByHalfRRTokenHolder (source 3): roles, whitelist, personal blacklist
+	runHistory("scripted", fromList([]op{{Kind: "create_role", Via: -1, Sid: 1, W: []uint32{17, 66}}, {Kind: "create_role", Via: -1, Sid: 2, Bl: []uint32{16}},
+		prop("assign", 3, 1, 0), prop("assign", 3, 2, 0), prop("wl_acc", 3, 0, 16), prop("bl_acc", 3, 0, 66), prop("wl_acc", 3, 0, 9),
+		{Kind: "rotate", A: 3, B: 4, Via: -2}, {Kind: "rotate_rr", A: 3, B: 4, Via: -2}, {Kind: "vote_proposal", A: 4, Via: -2}, {Kind: "poll_create", A: 4, Via: -2},
+		{Kind: "submit_proposal", A: 4, Via: -2}, {Kind: "vote_proposal", A: 3, Via: -2}, {Kind: "assign", Via: 4, A: 1, R: 1}, {Kind: "rotate_rr", A: 3, B: 5, Via: -2}}))
+	runHistory("scripted", fromList([]op{prop("wl_acc", 1, 0, 17), prop("bl_acc", 1, 0, 66), {Kind: "create_role", Via: -1, Sid: 1, W: []uint32{66}}, prop("assign", 1, 1, 0),
+		{Kind: "rotate", A: 1, B: 5, Via: -2}, {Kind: "poll_create", A: 5, Via: -2}, {Kind: "vote_proposal", A: 5, Via: -2}, {Kind: "poll_create", A: 1, Via: -2}}))
 	// ---- random histories
 	for h := 0; h < *n; h++ {
 		length := 8 + rng.Intn(18)
@@ -801,6 +851,14 @@ func main() {
 			}
 			return g.randomOp(), true
 		})
+	}
+
+	// spread the heavy histories (probes, sweeps) evenly over the shards the driver cuts: a
+	// deterministic shuffle of the case order
+	for i := len(lines) - 1; i > 0; i-- {
+		j := rng.Intn(i + 1)
+		lines[i], lines[j] = lines[j], lines[i]
+		js[i], js[j] = js[j], js[i]
 	}
 
 	var pre strings.Builder
